@@ -45,10 +45,14 @@ def _run_one(args):
         impl = Program(os.path.join(VERIF, job.opts["impl_root"]), "canary", fallback=os.path.join(repo or REPO, "asyncstdlib"))
     t0 = time.time()
     try:
-        v = Verifier(job, impl, ref, mode=mode, unroll=unroll)
+        jmode = job.opts.get("mode", mode)
+        v = Verifier(job, impl, ref, mode=jmode, unroll=job.opts.get("unroll", unroll))
         res = v.run()
-        res.mode = mode
+        res.mode = jmode
         out = summarise(res)
+        if jmode == "bounded":
+            for ob in out["obligations"]:
+                ob["bounded"] = True
         out["args"] = argspec(job)
         out["opts"] = {"val_protocols": job.opts.get("val_protocols")}
     except Exception as e:      # engine crash: reported as checker error, never as a violation
@@ -88,14 +92,74 @@ def argspec(job):
             "ikw": {k: conv(x) for k, x in a.get("ikw", {}).items()}, "rkw": {k: conv(x) for k, x in a.get("rkw", {}).items()}}
 
 
+def tree_hash(repo=None):
+    """content hash of everything a job result depends on: the working tree's sources, the verifier, the contracts"""
+    h = hashlib.sha256()
+    roots = [os.path.join(repo or REPO, "asyncstdlib"), os.path.join(VERIF, "pyvc"), os.path.join(VERIF, "contracts")]
+    for root in roots:
+        for dp, dn, fn in sorted(os.walk(root)):
+            dn.sort()
+            for f in sorted(fn):
+                if f.endswith(".py"):
+                    p = os.path.join(dp, f)
+                    h.update(p.encode())
+                    h.update(open(p, "rb").read())
+    return h.hexdigest()[:24]
+
+
+def _cache_path(th, mode, unroll, jobname):
+    base = os.path.join(VERIF, "scratch", "cache")
+    d = os.path.join(base, th)
+    if not os.path.isdir(d):
+        os.makedirs(d, exist_ok=True)
+        try:        # keep the cache small: only the four most recently used trees
+            import shutil
+            dirs = sorted((os.path.join(base, x) for x in os.listdir(base)), key=os.path.getmtime)
+            for old in dirs[:-4]:
+                shutil.rmtree(old, ignore_errors=True)
+        except Exception:
+            pass
+    safe = re.sub(r"[^A-Za-z0-9_.=-]+", "_", jobname)
+    return os.path.join(d, f"{mode}-{unroll}-{safe}.json")
+
+
 def run_jobs(specs, mode="prove", unroll=3, procs=None, repo=None):
-    """specs: list of (module name, job name)"""
+    """specs: list of (module name, job name).  Results are memoised under scratch/cache/<content hash of the
+    working tree + verifier + contracts>/: several property checks share the same jobs, and a result is reused only
+    for byte-identical sources (PYVC_NO_CACHE=1 disables it)."""
     procs = procs or min(16, os.cpu_count() or 4)
-    args = [(m, j, mode, unroll, repo) for m, j in specs]
+    use_cache = not os.environ.get("PYVC_NO_CACHE")
+    th = tree_hash(repo) if use_cache else None
+    out = [None] * len(specs)
+    todo = []
+    for i, (m, j) in enumerate(specs):
+        if use_cache:
+            cp = _cache_path(th, mode, unroll, j)
+            if os.path.exists(cp):
+                try:
+                    out[i] = json.load(open(cp))
+                    out[i]["cached"] = True
+                    continue
+                except Exception:
+                    pass
+        todo.append(i)
+    args = [(specs[i][0], specs[i][1], mode, unroll, repo) for i in todo]
     if len(args) <= 1 or procs == 1:
-        return [_run_one(a) for a in args]
-    with mp.get_context("fork").Pool(procs) as pool:
-        return pool.map(_run_one, args, chunksize=1)
+        res = [_run_one(a) for a in args]
+    else:
+        with mp.get_context("fork").Pool(procs) as pool:
+            res = pool.map(_run_one, args, chunksize=1)
+    for i, r in zip(todo, res):
+        out[i] = r
+        if use_cache and not r.get("crash"):
+            cp = _cache_path(th, mode, unroll, specs[i][1])
+            tmp = cp + f".{os.getpid()}.tmp"
+            try:
+                json.dump(r, open(tmp, "w"), default=str)
+                os.replace(tmp, cp)
+            except Exception:
+                pass
+    return out
 
 
 # --------------------------------------------------------------------------------------------
